@@ -1320,6 +1320,9 @@ pub fn explicit_cells(seed: u64) -> Vec<Scenario> {
         ("missing-both", "nope1", "nope2"),
         ("missing-same", "nope1", "nope1"),
         ("missing-one", "a.txt", "nope2"),
+        // `--` in front of the file names (files named like the commands delta can launch are not a
+        // cell: `delta git rg` is the launching form by design, whatever is in the directory)
+        ("double-dash", "a.txt", "b.txt"),
     ] {
         // a git that answers --version with something unusable means: plain diff is the differ
         for gv in ["git version 2.39.5", "git version 2.42.0", "git version 2.45.1", "git version 1.9.1", "", "git version 2", "git version 2.39.3 (Apple Git-146)"] {
@@ -1333,8 +1336,13 @@ pub fn explicit_cells(seed: u64) -> Vec<Scenario> {
             for st in [0, 1, 2] {
                 let mut spec = RunSpec::default();
                 spec.plan = Plan::basic(mix(seed, &[tag("cellhash2"), out.len() as u64]));
-                spec.args = vec!["--paging".into(), "never".into(), "--no-gitconfig".into(), "--width".into(), "100".into(), oa.into(), ob.into()];
-                spec.files = vec![("a.txt".into(), Blob::from("one\n")), ("b.txt".into(), Blob::from("two\n")), ("da/f.txt".into(), Blob::from("one\n")), ("db/f.txt".into(), Blob::from("two\n"))];
+                spec.args = vec!["--paging".into(), "never".into(), "--no-gitconfig".into(), "--width".into(), "100".into()];
+                if oclass == "double-dash" {
+                    spec.args.push("--".into());
+                }
+                spec.args.push(oa.into());
+                spec.args.push(ob.into());
+                spec.files = vec![("a.txt".into(), Blob::from("one\n")), ("b.txt".into(), Blob::from("two\n")), ("da/f.txt".into(), Blob::from("one\n")), ("db/f.txt".into(), Blob::from("two\n")), ("git".into(), Blob::from("a file named git\n")), ("rg".into(), Blob::from("a file named rg\n")), ("diff".into(), Blob::from("a file named diff\n"))];
                 let outp = if st == 1 { diff.clone() } else { Vec::new() };
                 let stderr = if st >= 2 { "error: Could not access 'x'\n" } else { "" };
                 spec.child = Some(ChildSetup { names: vec!["git".into(), "diff".into()], stdout: outp.into(), stderr: stderr.into(), stderr_first: false, exit: st, git_version: gv.into() });
